@@ -255,6 +255,25 @@ def check_cases(ctx, cases):
                         ctx.fail(case, "Directory.from_possibly_duplicated_entries with a raw manifest to preserve: the id is not the SHA-1 of that manifest / check() rejects it", "id-not-hash-of-manifest:repair-constructor-raw")
             except Exception as e:
                 ctx.fail(case, f"Directory.from_possibly_duplicated_entries raises {type(e).__name__}: {str(e)[:100]}", "repair-constructor-raises")
+        # a wrong id given when the object is BUILT (from its dictionary; for revisions also with the
+        # extra headers in their legacy place) is kept and rejected, like one set afterwards
+        wl = list(wrong_ids(ctx, o.id, case["flipseed"]))[:3]
+        for w in wl:
+            forms = [dict(o.to_dict(), id=w)]
+            if kind == "revision" and o.extra_headers:
+                dl = dict(o.to_dict(), id=w)
+                eh = dl.pop("extra_headers")
+                dl["metadata"] = dict(dl.get("metadata") or {}, extra_headers=[list(h) for h in eh])
+                forms.append(dl)
+            for fd in forms:
+                try:
+                    ob = type(o).from_dict(fd)
+                except (ValueError, TypeError):
+                    continue
+                ctx.count("wrong-ids-at-construction")
+                if ob.id != w or check_outcome(ob) != "valueError":
+                    ctx.fail(case, "an object built with a wrong id (from its dictionary) does not keep it / is accepted by check()", "wrong-id-accepted:at-construction", {"id": hx(w), "legacy": fd is not forms[0]})
+                    break
         for w in wrong_ids(ctx, o.id, case["flipseed"]):
             ctx.count("wrong-ids")
             try:
